@@ -194,7 +194,7 @@ func runJob(scratch string, id int, job worker.Job, race bool, perRunTimeout tim
 		default:
 			line, fp := crashFingerprint(tail)
 			if fp == "" {
-				return nil, fmt.Errorf("worker %d died without a Go panic (exit: %v): %s", id, werr, lastLines(tail, 15))
+				return nil, fmt.Errorf("worker %d died without a Go panic (exit: %v):\n%s\n...\n%s", id, werr, firstLines(tail, 40), lastLines(tail, 15))
 			}
 			if !strings.Contains(tail, "orda-io/orda/") {
 				return nil, fmt.Errorf("worker %d: harness panic: %s\n%s", id, line, lastLines(tail, 40))
